@@ -7,7 +7,7 @@
 #define R __CPROVER_return_value
 #define FCRE_PRE \
 __CPROVER_requires(IORA_TRUE && iora_exc == EXC_NONE && data.n <= ((size_t)1 << 50) && __CPROVER_is_fresh(data.p, data.n)) \
-__CPROVER_requires(bodyStart <= data.n && GF <= data.n) \
+__CPROVER_requires(bodyStart <= data.n && GF <= data.n && G_stoul_calls == 0) \
 __CPROVER_assigns(iora_exc, iora_exc_caught, G_stoul_calls, G_stoul_off, G_stoul_n, G_stoul_ret, G_stoul_exc)
 
 /* proof "safety": all built-in obligations (bounds, pointers, signed + UNSIGNED overflow = "no wrap in position
@@ -103,7 +103,7 @@ void h_search(void)
   char IN[12]; size_t IN_N = nondet_size_t();
   IORA_NONDET_BYTES(IN, 12);
   __CPROVER_assume(IN_N <= 12);
-  IORA_TRUE = 1;
+  IORA_TRUE = 1; G_stoul_base = IN;
   iora_sv data = { IN, IN_N };
   size_t r = HttpServer_findChunkedRequestEnd(data, 0);
   __CPROVER_assert(r == IORA_NPOS || (0 < r && r <= data.n), "S1");
